@@ -86,6 +86,9 @@ def three_systems(table_name, mbs):
         _SYS[k] = [('sync', Sys('sync', table, max_batch_size=mbs)),
                    ('async', Sys('async', table, max_batch_size=mbs, coroutine_methods=True)),
                    ('async-plain', Sys('async', table, max_batch_size=mbs, coroutine_methods=False))]
+        if table_name == 'c01':
+            for _, s_ in _SYS[k]:
+                c01.register_internal_failures(s_.d)
     return _SYS[k]
 
 
